@@ -20,6 +20,9 @@ type segCase struct {
 	// tables, which the caller never modified in between; the call judged is
 	// (MinLen, MaxLen) and every earlier call is judged as well.
 	Before [][2]int `json:"before,omitempty"`
+	// Nested: the first callback of the call judged calls Segments itself, on
+	// the tables of the reversed text (a callback may use the package).
+	Nested bool `json:"nested,omitempty"`
 }
 
 // checkSegCase decides C10 for one (text, minLen, maxLen).
@@ -42,6 +45,16 @@ func checkSegCase(c segCase) (msg string, bad bool, nontrivial bool) {
 		lcp = naiveLCP(text, sa)
 	}
 	nontrivial = lcpHasPartialDescent(lcp, c.MinLen, c.MaxLen)
+	var text2 []byte
+	var sa2, lcp2 []int32
+	if c.Nested {
+		text2 = make([]byte, n)
+		for i := range text {
+			text2[n-1-i] = text[i]
+		}
+		sa2 = naiveSuffixArray(text2)
+		lcp2 = naiveLCP(text2, sa2)
+	}
 	pairs := append(append([][2]int(nil), c.Before...), [2]int{c.MinLen, c.MaxLen})
 	// The tables live in one allocation, the way a caller with an arena lays
 	// them out: lcp | sa | guard words. The slices handed over have spare
@@ -60,9 +73,28 @@ func checkSegCase(c segCase) (msg string, bad bool, nontrivial bool) {
 		for i := 0; i < guard; i++ {
 			arena[2*n+i] = int32(-7770 - i)
 		}
+		var nestedCalls []segCall
+		var nestedErr error
+		nestedDone := false
 		suffix.Segments(saArg, lcpArg, pr[0], pr[1], func(m int, seg []int32) {
 			calls = append(calls, segCall{m, append([]int32(nil), seg...)})
+			// every callback of the call judged (the groups closed at the end
+			// of the table come last) makes a call of its own
+			if c.Nested && ci == len(pairs)-1 && len(calls) <= 64 {
+				nestedDone = true
+				nestedCalls = nestedCalls[:0]
+				suffix.Segments(append([]int32(nil), sa2...), append([]int32(nil), lcp2...), 1, len(text2)+1, func(m2 int, seg2 []int32) {
+					nestedCalls = append(nestedCalls, segCall{m2, append([]int32(nil), seg2...)})
+				})
+			}
 		})
+		if nestedDone {
+			// the result of the last nested call is judged (all of them see
+			// the same tables); the outer call is judged below as always
+			if nestedErr = checkSegments(text2, 1, len(text2)+1, nestedCalls); nestedErr != nil {
+				return fmt.Sprintf("a Segments call made from inside a callback: %v", nestedErr), true, nontrivial
+			}
+		}
 		for i := 0; i < guard; i++ {
 			if arena[2*n+i] != int32(-7770-i) {
 				return fmt.Sprintf("call %d (minLen=%d, maxLen=%d): Segments wrote behind the end of the suffix array it was given (word %d behind it is now %d)", ci+1, pr[0], pr[1], i, arena[2*n+i]), true, nontrivial
@@ -120,7 +152,7 @@ func TestC10(t *testing.T) {
 		n := len(text)
 		c := segCase{Text: text}
 		c.MinLen, c.MaxLen = genSegLens(t, n)
-		if rapid.IntRange(0, 9).Draw(t, "again") < 4 {
+		if n <= 48 && rapid.IntRange(0, 9).Draw(t, "again") < 4 {
 			// earlier calls on the same tables
 			for k := rapid.IntRange(1, 2).Draw(t, "nBefore"); k > 0; k-- {
 				lo, hi := genSegLens(t, n)
@@ -128,6 +160,7 @@ func TestC10(t *testing.T) {
 			}
 		}
 		c.LibSA = rapid.Bool().Draw(t, "libSA")
+		c.Nested = n <= 32 && rapid.IntRange(0, 4).Draw(t, "nested") == 0
 		beginCase("C10", "", func() any { return c })
 		defer endCase() // also when rapid abandons the case half-way (fuzzing: input used up)
 		msg, bad, nt := checkSegCase(c)
